@@ -52,6 +52,12 @@ func genMethod(r *rand.Rand, name string) *methodSpec {
 		}
 		m.viaCallback = r.IntN(5) < 2
 		m.signersErr = r.IntN(33) == 0
+		if n == 0 && m.wrapped && m.maxTries <= 0 {
+			// "If maxTries is <= 0, will retry indefinitely": with no signer at all the
+			// inner method fails without any I/O and the documented endless retry
+			// spins forever. That is the application's choice, not a dialogue.
+			m.maxTries = 2
+		}
 	}
 	return m
 }
